@@ -560,6 +560,28 @@ fn write_option_probe(rep: &mut Report) {
     }
 }
 
+
+/// Results with a zero-sized struct on one side: the record is the other side's payload and the flag (the empty side
+/// takes no room in the union, the payload keeps its place in front of `is_ok`).
+fn zst_side_results_probe(rep: &mut Report) {
+    let src = "#[diplomat::bridge]\nmod ffi {\n    #[diplomat::attr(auto, error)]\n    pub struct Empty;\n    pub struct Pair { pub a: i32, pub b: i16 }\n    #[diplomat::opaque]\n    pub struct Job(u8);\n    impl Job {\n        pub fn big_or_empty(&self) -> Result<i64, Empty> { unimplemented!() }\n        pub fn empty_or_small(&self) -> Result<Empty, u8> { unimplemented!() }\n        pub fn pair_or_empty(&self) -> Result<Pair, Empty> { unimplemented!() }\n        pub fn unit_or_empty(&self) -> Result<(), Empty> { unimplemented!() }\n    }\n}\n";
+    let abis: Vec<String> = ["Job_big_or_empty", "Job_empty_or_small", "Job_pair_or_empty", "Job_unit_or_empty"].iter().map(|s| s.to_string()).collect();
+    for backend in ["dart", "kotlin"] {
+        rep.oracle_runs += 1;
+        rep.count("probe:zst-side-results");
+        match compare_functions(src, backend, &abis) {
+            Err(e) => rep.notes.push(format!("zst-side-results probe ({backend}): {e}")),
+            Ok(diffs) => {
+                for (item, pos, c, b) in diffs {
+                    // the payload-free records are the recorded Kotlin finding F27 (`OptionUnit` field order)
+                    if backend == "kotlin" && (item == "Job_unit_or_empty" || item == "Job_maybe_empty") { continue; }
+                    rep.oracle_fail(&format!("(c07 probe zst-side-results {backend} {item})"), "the result record of a method with a zero-sized struct on one side is not the C function's", json!({"backend": backend, "item": item, "position": pos, "c": c, "binding": b, "source": src}));
+                }
+            }
+        }
+    }
+}
+
 fn sparse_enum_probe(rep: &mut Report) {
     let src = "#[diplomat::bridge]\nmod ffi {\n    pub enum Status { Unknown = -1, Idle = 0, Busy = 7 }\n    pub enum Flags { Low = 1, Top = 1073741824 }\n    pub enum Level { A, B, C }\n    pub struct Report { pub status: Status, pub level: Level, pub code: u8, pub flags: Flags }\n    #[diplomat::opaque]\n    pub struct Job(u8);\n    impl Job {\n        pub fn status(&self) -> Status { Status::Idle }\n        pub fn set_status(&mut self, s: Status, f: Flags, l: Level) {}\n        pub fn known_status(&self) -> Option<Status> { None }\n        pub fn check(&self) -> Result<Level, Status> { Ok(Level::A) }\n        pub fn flags(&self) -> Result<Flags, ()> { Err(()) }\n        pub fn report(&self) -> Report { unimplemented!() }\n        pub fn take(&self, r: Report) -> u8 { 0 }\n    }\n    impl Status {\n        pub fn is_known(self) -> bool { true }\n        pub fn next(self) -> Status { self }\n    }\n}\n";
     let abis: Vec<String> = ["Job_status", "Job_set_status", "Job_known_status", "Job_check", "Job_flags", "Job_report", "Job_take", "Status_is_known", "Status_next"].iter().map(|s| s.to_string()).collect();
@@ -727,5 +749,6 @@ pub fn main(args: &[String]) {
     rep.extra.insert("observed_mismatches".into(), json!(observed_prim_mismatch));
     sparse_enum_probe(&mut rep);
     write_option_probe(&mut rep);
+    zst_side_results_probe(&mut rep);
     rep.print();
 }
